@@ -21,7 +21,12 @@ CLAIMED = {
     "C02": dict(
         engine="sim-conf", level="exploration", ref="DESIGN.md §6 C02",
         technique="deterministic simulation: seeded API-level interleaving of reader/writer/savepoint actors against a versioned reference model",
-        text="Seeded search over histories with up to 6 concurrently live readers (tables, held iterators in both directions, borrowed and owned guards, handles dropped before their guards) re-consulted after every later commit/abort/restore/compaction attempt at cache sizes from 0; each re-read must equal the model snapshot of the version current at begin_read(). API-level interleavings only in this check (single thread)."),
+        text="Seeded search over histories with up to 6 concurrently live readers (tables, held iterators in both directions, borrowed and owned guards, handles dropped before their guards) re-consulted after every later commit/abort/restore/compaction attempt at cache sizes from 0; each re-read must equal the model snapshot of the version current at begin_read(). Engine B adds lock-level interleavings: reader tasks under the stall scheduler re-read their snapshot (tables, counters, a held iterator) while writer tasks commit, free and reuse pages at cache sizes from 0."),
+    "C03": dict(
+        engine="sched", level="exploration", ref="DESIGN.md §5, §6 C03",
+        technique="deterministic simulation of thread schedules: real redb with its lock primitives replaced by shuttle's, client tasks under seeded stall / random / PCT schedulers, history checked for serial commit order and real-time bounds",
+        text="Seeded search over lock-level interleavings: 1-2 writer tasks (each transaction reads one counter and writes counter+1 into three tables, churns a fourth, commits with a drawn durability / 2PC / quick-repair or aborts, creates and drops savepoints) and 0-2 reader tasks, plus a scenario that drops the Database while a write transaction is live. The stall scheduler freezes a victim at a chosen scheduling point inside a chosen API call while the others run whole API calls. History oracle over globally sequenced events: never two live writers; committed versions are exactly 1..N; a commit that returned before another was called has the smaller version; every reader sees one version in all tables, not older than any commit that had returned before begin_read was called and not newer than any commit requested before it returned, never moving backwards per task; contents equal the model of that version; every execution terminates (shuttle reports a deadlock deterministically).",
+        note="Trusted base: shuttle 0.9.3 (sequentially consistent, one task runs at a time), the harness oracles. Preemption happens at lock/condvar operations and at the named pause points; atomics are not scheduling points; weak-memory behaviour is out of reach. src/sync.rs itself is replaced, so changes confined to it are not seen. Sampling, not enumeration."),
     "C04": dict(
         engine="sim-conf", level="exploration", ref="DESIGN.md §6 C04 (conformance tier)",
         technique="deterministic simulation, fault-free conformance tier: seeded operation programs checked operation by operation against a sorted-map model, with commit/reopen/dirty-restart steps",
@@ -58,6 +63,11 @@ CLAIMED = {
         engine="sim-crash", level="exploration", ref="DESIGN.md §6 C13",
         technique="deterministic simulation: compaction at arbitrary points of seeded histories, with crash images inside the compaction",
         text="Seeded search: compact() at arbitrary points (fragmented, multi-region, pending frees, non-durable commits, live readers/savepoints); contents unchanged, length not larger, sync count bounded, refusal with the documented error and no effect while readers or savepoints exist; crash images taken inside the compaction recover to the unchanged contents."),
+    "C16": dict(
+        engine="sched", level="exploration", ref="DESIGN.md §5, §6 C16",
+        technique="deterministic simulation of thread schedules: one WriteTransaction shared by several shuttle tasks under seeded stall / random / PCT schedulers, audited sequentially afterwards",
+        text="Seeded search over interleavings of 2-4 tasks that each open and modify their own table and multimap of one shared write transaction (inserts of values up to three pages, removals of committed entries), with a task calling ephemeral_savepoint() concurrently and a task dropping an older Savepoint while the commit runs; then commit or abort. Afterwards: every table equals its own stream applied alone, the exact page-ownership equation holds (no page shared, none leaked), a concurrently obtained savepoint either failed with InvalidSavepoint or restores the pre-transaction contents without leaking, and check_integrity() is Ok(true).",
+        note="Trusted base: shuttle 0.9.3 (sequentially consistent), harness oracles, independent decoder. Preemption at lock operations and named pause points only. Sampling, not enumeration."),
     "C17": dict(
         engine="sim-conf", level="exploration", ref="DESIGN.md §6 C17 (conformance tier)",
         technique="deterministic simulation, fault-free conformance tier: seeded catalog programs against a name -> (kind, types, contents) model",
@@ -65,13 +75,11 @@ CLAIMED = {
     "C20": dict(
         engine="sim-conf", level="exploration", ref="DESIGN.md §6 C20",
         technique="deterministic simulation: contract monitor inside the simulated storage backend over seeded lifecycle histories",
-        text="SimDisk records a contract violation for any read/write beyond the current length, any call after close(), a close() count other than one per backend, and any write/set_len/sync on a read-only database; seeded lifecycle histories (Database dropped with a live write transaction, read-only opens, reopen, compaction shrink, dirty restart) exercise it."),
+        text="SimDisk records a contract violation for any read/write beyond the current length, any call after close(), a close() count other than one per backend, and any write/set_len/sync on a read-only database; seeded lifecycle histories (Database dropped with a live write transaction, read-only opens, reopen, compaction shrink, dirty restart) exercise it; Engine B races the Database drop against a live write transaction and a reader under seeded schedules."),
 }
 
 NOT_YET = {
-    "C03": "check not built yet (needs the shuttle-scheduled engine, DESIGN.md §5); no claim is made until it exists",
     "C12": "check not built yet (stored-byte corruption engine, DESIGN.md §6 C12); no claim is made until it exists",
-    "C16": "check not built yet (needs the shuttle-scheduled engine, DESIGN.md §5); no claim is made until it exists",
     "C18": "check not built yet (experimental_cursor feature build of the conformance tier); no claim is made until it exists",
     "C19": "check not built yet (two implementations on one simulated disk); no claim is made until it exists",
 }
@@ -119,6 +127,8 @@ manifest = {
          "kind_free_text": "single-threaded seeded simulator: real redb on SimDisk (simulated StorageBackend) checked step by step against a reference model"},
         {"name": "sim-fault", "path": "/verif/sim", "serves_properties": [p for p in sorted(CLAIMED) if CLAIMED[p]["engine"] == "sim-fault"],
          "kind_free_text": "the same simulator with fault injection at every backend call index, followed by crash-state reopen"},
+        {"name": "sched", "path": "/verif/sched", "serves_properties": ["C02", "C03", "C16", "C20"],
+         "kind_free_text": "real redb (copy of /repo/src, sync.rs replaced by shuttle primitives) with client tasks under seeded stall / random / PCT schedulers; replay = same plan + scheduler seed, schedule hash compared"},
         {"name": "sim-crash", "path": "/verif/sim", "serves_properties": [p for p in sorted(CLAIMED) if CLAIMED[p]["engine"] == "sim-crash"],
          "kind_free_text": "the same simulator plus crash-image exploration over the recorded backend op log (record once, crash many), nested crashes in recovery"},
     ],
